@@ -7,6 +7,14 @@ by name only} x chain shapes of length 2 and 3 x which FFI realizes a type first
 x modes {in-line, out-of-line ABI, compiled API}; in-line additionally with the included FFI
 fresh or already used by an earlier (collected) including FFI.
 
+Further families (each a finite product that is executed completely):
+  shapes   18 more shapes of types / constants and 12 more shapes of API functions, globals and constants
+  first    WHAT touches an included type first: its name, the includer's dependent type, or a lib function
+  how      include() after a first cdef(), twice, into an FFI that declares nothing, before a later cdef() of
+           the included FFI
+  naming   modules inside a package (dotted names) / included module imported and used before the includer
+  long     chains of 4 and 5 FFIs (chain, 4-node diamond, a miss that returns from depth 2 before the hit)
+
 Oracle: ffi_j.typeof(x) is ffi_1.typeof(x) for every FFI of the chain, constants equal,
 layouts those of the included module (gcc-computed), usages in the including cdef refer to the
 shared object, API: included functions / globals / constants reachable through the including lib.
@@ -16,147 +24,80 @@ import gc
 import io
 import itertools
 import os
+import pickle
+import re
+import shutil
 import subprocess
 import sys
+import traceback
 
 from .. import build, cref, pool
 from ..build import InfraError
+from . import _c34_kinds as K
 
 ID = "C34"
 LEVEL = "exploration"
 META = dict(
     engine="E1-enum", level="exploration",
     technique="exhaustive enumeration of include chains (declaration kinds x usage kinds x chain shape x realization "
-              "order x mode) with object identity, gcc-computed layouts and value equality as oracle",
+              "order x mode, plus first-touch, include-call, module-naming and long-chain families) with object "
+              "identity, gcc-computed layouts and value equality as oracle",
     text="Every subset of <= 2 (thorough 3) of 9 declaration kinds is declared in an FFI that is included, directly and "
          "through a second FFI (5 chain shapes), by FFIs that use each declaration as field / pointer argument / "
          "typedef target / by name only; in-line, as out-of-line ABI modules and as compiled API modules (batched by "
-         "name mangling); every type must be the same ctype object in every FFI of the chain whichever FFI realizes it "
+         "name mangling, one forked process per realization order); every type must be the same ctype object in "
+         "every FFI of the chain whichever FFI realizes it "
          "first, layouts must be those of the included module, integer constants and enumerators equal, and in API "
          "mode functions, globals and constants of the included module reachable (same address, shared storage) "
-         "through every including lib.",
+         "through every including lib.  Additional exhaustive families: 18 further declaration shapes (opaque, "
+         "anonymous union / enum typedefs, negative, 64-bit and unnamed enums, typedefs of pointer / array / function / "
+         "typedef / struct pointer, nested aggregates, 64-bit and negative constants, packed, flexible, partial union / "
+         "anonymous struct) and 12 further API function / global / constant shapes (0/2/variadic arguments, struct by "
+         "value, array / struct / function-pointer / const globals, double / string / struct constants, extern "
+         "\"Python\") as single kinds (thorough: paired with every original kind); what is touched first (the name, the "
+         "includer's dependent type, a lib function); include() after a first cdef, twice, into an empty FFI, before "
+         "a later cdef of the included FFI; modules in a package and included module used before the includer is "
+         "imported; chains of 4 and 5 FFIs; cross-FFI behaviour (new / assignment / addressof / offsetof / passing "
+         "cdata of one FFI to the other's function) wherever identity held; numbered anonymous structs also in API mode.",
     note="layout expectations come from gcc (cref); API modules are the generator's C files compiled with gcc -O0; "
-         "in-line/ABI modes do not promise functions and globals through include() and are not judged on them")
+         "in-line/ABI modes do not promise functions and globals through include() and are not judged on them; "
+         "declarations cdef()ed into the included FFI after include() may be visible or not, but never as another object")
 
-KINDS = ["tprim", "tstruct", "struct", "union", "enum", "anon", "const", "func", "glob"]
+KINDS = K.OLD_KINDS
 TYPE_KINDS = KINDS[:6]
 USAGES = ["field", "ptrarg", "tdtarget", "nameonly"]
-TOPOS = ["L2", "L3_use_mid", "L3_use_last", "L3_diamond", "L3_two_bases"]
 ORDERS = ["base_first", "includer_first"]
+FIRSTS = ["name", "usage", "lib"]
+HOWS = ["before", "after_cdef", "twice", "empty", "late_cdef", "emit_late"]
+NAMINGS = ["flat", "package", "flat+baseused", "package+baseused"]
 
-
-def applicable(kind, usage):
-    if kind in TYPE_KINDS:
-        return True
-    if kind == "const":
-        return usage != "ptrarg"
-    return usage == "nameonly"
-
-
-# ---------------------------------------------------------------------------------------
-# texts
-
-def decl(kind, s, api):
-    """Declaration of `kind` with name suffix s.  Returns a dict:
-    cdef, ctypes (C type definitions every module of the chain needs), cdefs (C definitions for the
-    declaring module only), types (probe names), main (the type used by the usages), consts, layout key."""
-    d = dict(cdef="", ctypes="", cdefs="", types=[], main=None, consts={}, layout=None)
-    if kind == "tprim":
-        d["cdef"] = d["ctypes"] = "typedef int tp_t%s;\n" % s
-        d["types"] = ["tp_t" + s]
-    elif kind == "tstruct":
-        if api:
-            # the cdef is partial: the layout can only come from the compiled included module
-            d["cdef"] = "typedef struct ts_s%s { int a; char b; ...; } ts_t%s;\n" % (s, s)
-            d["ctypes"] = "typedef struct ts_s%s { char pad[12]; int a; char b; } ts_t%s;\n" % (s, s)
-            d["layout"] = "tstruct_api"
-        else:
-            d["cdef"] = d["ctypes"] = "typedef struct ts_s%s { int a; char b; } ts_t%s;\n" % (s, s)
-            d["layout"] = "tstruct"
-        d["types"] = ["ts_t" + s, "struct ts_s" + s]
-    elif kind == "struct":
-        d["cdef"] = d["ctypes"] = "struct st_s%s { short a; int b:3; long c; };\n" % s
-        d["types"] = ["struct st_s" + s]
-        d["layout"] = "struct"
-    elif kind == "union":
-        d["cdef"] = d["ctypes"] = "union un_u%s { int a; char b[6]; };\n" % s
-        d["types"] = ["union un_u" + s]
-        d["layout"] = "union"
-    elif kind == "enum":
-        d["cdef"] = d["ctypes"] = "enum en_e%s { EN_A%s, EN_B%s = 5 };\n" % (s, s, s)
-        d["types"] = ["enum en_e" + s]
-        d["consts"] = {"EN_A" + s: 0, "EN_B" + s: 5}
-    elif kind == "anon":
-        d["cdef"] = d["ctypes"] = "typedef struct { long a; char b; } an_t%s;\n" % s
-        d["types"] = ["an_t" + s]
-        d["layout"] = "anon"
-    elif kind == "const":
-        d["cdef"] = "#define K_CONST%s 42\nstatic const int K_NEG%s = -7;\n" % (s, s)
-        d["cdefs"] = "#define K_CONST%s 42\nstatic const int K_NEG%s = -7;\n" % (s, s)
-        d["consts"] = {"K_CONST" + s: 42, "K_NEG" + s: -7}
-    elif kind == "func":
-        d["cdef"] = "int fn_f%s(int);\n" % s
-        d["cdefs"] = "int fn_f%s(int x) { return x + 1000; }\n" % s
-    elif kind == "glob":
-        d["cdef"] = "extern int gl_g%s;\n" % s
-        d["cdefs"] = "int gl_g%s = 77;\n" % s
-    d["main"] = d["types"][0] if d["types"] else None
-    return d
-
-
-def usage(kind, u, s, main):
-    """Text in the including cdef (+ C definitions it needs in API mode)."""
-    t = kind + s
-    if u == "nameonly":
-        return "", ""
-    if kind == "const":
-        if u == "field":
-            return "struct use_s_%s { char f[K_CONST%s]; int z; };\n" % (t, s), ""
-        return "typedef char use_t_%s[K_CONST%s];\n" % (t, s), ""
-    if u == "field":
-        return "struct use_s_%s { %s f; int z; };\n" % (t, main), ""
-    if u == "ptrarg":
-        return "void use_f_%s(%s *);\n" % (t, main), "void use_f_%s(%s *p) { (void)p; }\n" % (t, main)
-    return "typedef %s use_t_%s;\n" % (main, t), ""
-
-
-def c_usage_types(kind, u, s, main):
-    """C type definitions for the usage (needed by the using module and every module that includes it)."""
-    t = kind + s
-    if u == "field":
-        if kind == "const":
-            return "struct use_s_%s { char f[42]; int z; };\n" % t
-        return "struct use_s_%s { %s f; int z; };\n" % (t, main)
-    if u == "tdtarget":
-        if kind == "const":
-            return "typedef char use_t_%s[42];\n" % t
-        return "typedef %s use_t_%s;\n" % (main, t)
-    return ""
-
-
-LAYOUT_SRC = {
-    "tstruct": ("struct ts_s { int a; char b; }", ["a", "b"]),
-    "tstruct_api": ("struct ts_s { char pad[12]; int a; char b; }", ["a", "b"]),
-    "struct": ("struct st_s { short a; int b:3; long c; }", ["a", "c"]),
-    "union": ("union un_u { int a; char b[6]; }", ["a", "b"]),
-    "anon": ("struct an_s { long a; char b; }", ["a", "b"]),
+# name: (number of FFIs, includes (in include() order), FFI holding the usage, FFIs through which ffi1 must be visible)
+TOPO = {
+    "L2": (2, {2: [1]}, 2, [2]),
+    "L3_use_mid": (3, {2: [1], 3: [2]}, 2, [2, 3]),
+    "L3_use_last": (3, {2: [1], 3: [2]}, 3, [2, 3]),
+    "L3_diamond": (3, {2: [1], 3: [2, 1]}, 3, [2, 3]),
+    # ffi2 is an unrelated FFI; ffi3 includes it FIRST and the declaring FFI second
+    "L3_two_bases": (3, {2: [], 3: [2, 1]}, 3, [3]),
+    "L4_chain": (4, {2: [1], 3: [2], 4: [3]}, 4, [2, 3, 4]),
+    "L4_diamond": (4, {2: [1], 3: [1], 4: [2, 3]}, 4, [2, 3, 4]),
+    # ffi5 includes ffi4 (unrelated, itself including the unrelated ffi3) FIRST, then ffi2 which includes ffi1: the
+    # recursive lookups must come back from depth 2 with a miss before they find the declaration behind ffi2
+    "L5_miss_deep": (5, {2: [1], 3: [], 4: [3], 5: [4, 2]}, 5, [2, 5]),
 }
+TOPOS = ["L2", "L3_use_mid", "L3_use_last", "L3_diamond", "L3_two_bases"]
+LONG_TOPOS = ["L4_chain", "L4_diamond", "L5_miss_deep"]
+HOW_TOPOS = ["L2", "L3_use_last", "L3_diamond"]
+
+applicable = K.applicable
+decl = K.decl
+usage = K.usage
+c_usage_types = K.c_usage_types
 _LAYOUT = None
 
 
 def gcc_layouts():
-    src = ["#include <stdio.h>\n#include <stddef.h>\n"]
-    body = []
-    for i, (k, (text, flds)) in enumerate(sorted(LAYOUT_SRC.items())):
-        tn = text.split("{")[0].strip()
-        src.append(text.replace(tn, tn + "_%d" % i, 1) + ";\n")
-        T = tn + "_%d" % i
-        body.append('printf("%s %%zu %%zu", sizeof(%s), _Alignof(%s));' % (k, T, T))
-        for f in flds:
-            body.append('printf(" %s=%%zu", offsetof(%s, %s));' % (f, T, f))
-        body.append('printf("\\n");')
-    src.append("int main(void){\n" + "\n".join(body) + "\nreturn 0;}\n")
-    out = cref.run_c("".join(src))
+    out = cref.run_c(K.layout_program())
     res = {}
     for line in out.splitlines():
         p = line.split()
@@ -181,91 +122,171 @@ def _scratch_on_path():
     return d
 
 
-def chain_texts(du, topo, s, api):
-    """Per-FFI cdef text and C source for the chain.  du: tuple of (kind, usage)."""
-    decls = [(k, u, decl(k, s, api)) for k, u in du]
-    use_pos = {"L2": 2, "L3_use_mid": 2, "L3_use_last": 3, "L3_diamond": 3, "L3_two_bases": 3}[topo]
-    n = 2 if topo == "L2" else 3
-    cdefs = {i: "" for i in range(1, n + 1)}
-    csrc = {i: "" for i in range(1, n + 1)}
+class Texts(object):
+    """Per-FFI texts of one chain: pre (cdef before the include() calls), cdefs (after them), packed (cdef with
+    packed=True), late (cdef into ffi1 after everybody included it), csrc (C source, API mode)."""
+
+
+def chain_texts(du, topo, s, api, how="before"):
+    """du: tuple of (kind, usage)."""
+    X = Texts()
+    X.n, X.includes, X.use_pos, X.obs = TOPO[topo]
+    n = X.n
+    X.decls = decls = [(k, u, decl(k, s, api)) for k, u in du]
+    rng = range(1, n + 1)
+    X.pre = {i: "" for i in rng}
+    X.cdefs = {i: "" for i in rng}
+    X.packed = {i: "" for i in rng}
+    X.csrc = {i: "" for i in rng}
+    X.late = ""
     ctypes_all = "".join(d["ctypes"] for _, _, d in decls)
-    cdefs[1] = "".join(d["cdef"] for _, _, d in decls)
-    csrc[1] = ctypes_all + "".join(d["cdefs"] for _, _, d in decls)
+    X.cdefs[1] = "".join(d["cdef"] for _, _, d in decls)
+    X.packed[1] = "".join(d["packed"] for _, _, d in decls)
+    X.csrc[1] = ctypes_all + "".join(d["cdefs"] for _, _, d in decls)
+    if how == "late_cdef":
+        X.late, lt, lc = K.late_decl(s)
+        ctypes_all += lt
+        X.csrc[1] = lt + X.csrc[1] + lc
     utypes = ""
     for k, u, d in decls:
         ut, uc = usage(k, u, s, d["main"])
-        cdefs[use_pos] += ut
-        csrc[use_pos] += uc
+        X.cdefs[X.use_pos] += ut
+        X.csrc[X.use_pos] += uc
         utypes += c_usage_types(k, u, s, d["main"])
     for i in range(2, n + 1):
-        pre = ctypes_all + (utypes if i >= use_pos else "")
-        csrc[i] = pre + csrc[i]
+        pre = ctypes_all + (utypes if i >= X.use_pos else "")
+        X.csrc[i] = pre + X.csrc[i]
+        if how == "empty":
+            continue            # the FFI declares nothing of its own (only the usage, if it is the using one)
         # every FFI also declares something of its own, so that its tables are not empty
-        cdefs[i] += "typedef short own_t%s_%d;\n" % (s, i)
-        csrc[i] = "typedef short own_t%s_%d;\n" % (s, i) + csrc[i]
-    if topo == "L3_two_bases":
-        # ffi2 is an unrelated FFI; ffi3 includes it FIRST and the declaring FFI second
-        includes = {2: [], 3: [2, 1]}
-    else:
-        includes = {2: [1], 3: [2, 1] if topo == "L3_diamond" else [2]}
-    return n, cdefs, csrc, includes, use_pos, decls
+        own = "typedef short own_t%s_%d;\n" % (s, i)
+        if how == "after_cdef":
+            X.pre[i] = own
+        else:
+            X.cdefs[i] += own
+        X.csrc[i] = own + X.csrc[i]
+    return X
 
 
-def observers(topo, n):
+def observers(topo, n=None):
     """The FFIs through which the declarations of ffi1 must be visible."""
-    return [3] if topo == "L3_two_bases" else list(range(2, n + 1))
+    return list(TOPO[topo][3])
 
 
-def build_inline(du, topo, hist):
+LATE_EMISSION = ("late_cdef", "emit_late")
+
+
+def make_gens(n, includes, pre, cdefs, packed, late, how, on_built=None):
+    """The FFI objects of a chain, built the way `how` says.  on_built(i, ffi) emits module i: right after FFI i is
+    complete (before any FFI that includes it exists), or, for the LATE_EMISSION hows, only after every FFI of the
+    chain has been built (build scripts that import one another and compile at the end)."""
     import cffi
-    n, cdefs, _, includes, use_pos, decls = chain_texts(du, topo, "", False)
-    f = {1: cffi.FFI()}
-    f[1].cdef(cdefs[1])
+    g = {}
+    for i in range(1, n + 1):
+        g[i] = cffi.FFI()
+        if pre[i]:
+            g[i].cdef(pre[i])
+        for j in includes.get(i, []):
+            g[i].include(g[j])
+            if how == "twice":
+                g[i].include(g[j])
+        if cdefs[i]:
+            g[i].cdef(cdefs[i])
+        if packed[i]:
+            g[i].cdef(packed[i], packed=True)
+        if on_built and how not in LATE_EMISSION:
+            on_built(i, g[i])
+    if late:
+        g[1].cdef(late)
+    if on_built and how in LATE_EMISSION:
+        for i in range(1, n + 1):
+            on_built(i, g[i])
+    return g
+
+
+class BuildFailed(Exception):
+    """gcc rejects a module the generator wrote for a valid chain."""
+
+
+def build_inline(du, topo, hist, how="before"):
+    import cffi
+    X = chain_texts(du, topo, "", False, how)
     if hist == "reused":
         # an earlier including FFI used the same included FFI, realized everything, and is gone
+        f1 = cffi.FFI()
+        f1.cdef(X.cdefs[1])
+        if X.packed[1]:
+            f1.cdef(X.packed[1], packed=True)
         g = cffi.FFI()
-        g.include(f[1])
-        g.cdef(cdefs[use_pos] if use_pos == 2 else cdefs[2])
+        g.include(f1)
+        g.cdef(X.cdefs[X.use_pos] if X.use_pos == 2 else X.cdefs[2])
         ct = None
-        for _, _, d in decls:
+        for _, _, d in X.decls:
             for t in d["types"]:
                 ct = g.typeof(t)
                 if ct.kind in ("struct", "union"):
                     ct.fields
-                    g.sizeof(ct)
+                    if t not in d["opaque"]:
+                        g.sizeof(ct)
         del g, ct
         gc.collect()
-    for i in range(2, n + 1):
-        f[i] = cffi.FFI()
-        for j in includes[i]:
-            f[i].include(f[j])
-        f[i].cdef(cdefs[i])
+        f = {1: f1}
+        for i in range(2, X.n + 1):
+            f[i] = cffi.FFI()
+            for j in X.includes[i]:
+                f[i].include(f[j])
+            f[i].cdef(X.cdefs[i])
+    else:
+        f = make_gens(X.n, X.includes, X.pre, X.cdefs, X.packed, X.late, how)
     libs = {i: f[i].dlopen(None) for i in f}
-    return f, libs, decls, use_pos, None
+    return f, libs, X, None
 
 
-def build_abi(du, topo):
-    import cffi
+def _module_names(prefix, u, n, naming, d):
+    """(names, paths without extension, package name or None)"""
+    if naming.startswith("package"):
+        pkg = "%spkg_%s" % (prefix, u)
+        os.makedirs(os.path.join(d, pkg))
+        with open(os.path.join(d, pkg, "__init__.py"), "w") as fh:
+            fh.write("# package of included / including modules\n")
+        return ({i: "%s.m%d" % (pkg, i) for i in range(1, n + 1)},
+                {i: os.path.join(d, pkg, "m%d" % i) for i in range(1, n + 1)}, pkg)
+    names = {i: "%s_%s_%d" % (prefix, u, i) for i in range(1, n + 1)}
+    return names, {i: os.path.join(d, names[i]) for i in names}, None
+
+
+def _import_chain(names, n, naming, all_decls):
     import importlib
-    n, cdefs, _, includes, use_pos, decls = chain_texts(du, topo, "", False)
-    d = _scratch_on_path()
-    u = _uniq()
-    gen = {}
-    names = {}
-    for i in range(1, n + 1):
-        g = cffi.FFI()
-        for j in includes.get(i, []):
-            g.include(gen[j])
-        g.cdef(cdefs[i])
-        names[i] = "c34p_%s_%d" % (u, i)
-        g.set_source(names[i], None)
-        gen[i] = g
-        with contextlib.redirect_stdout(io.StringIO()):
-            g.emit_python_code(os.path.join(d, names[i] + ".py"))
     importlib.invalidate_caches()
     mods = {}
-    for i in range(n, 0, -1):               # importing the last one imports the others
-        mods[i] = importlib.import_module(names[i])
+    if naming.endswith("baseused"):
+        # the included module is imported and every type of it realized before the includer is even imported
+        mods[1] = importlib.import_module(names[1])
+        for decls in all_decls:
+            for _, _, d in decls:
+                for t in d["types"]:
+                    ct = mods[1].ffi.typeof(t)
+                    if ct.kind in ("struct", "union"):
+                        ct.fields
+        for i in range(2, n + 1):
+            mods[i] = importlib.import_module(names[i])
+    else:
+        for i in range(n, 0, -1):               # importing the last one imports the others
+            mods[i] = importlib.import_module(names[i])
+    return mods
+
+
+def build_abi(du, topo, how="before", naming="flat"):
+    X = chain_texts(du, topo, "", False, how)
+    d = _scratch_on_path()
+    u = _uniq()
+    names, paths, pkg = _module_names("c34p", u, X.n, naming, d)
+    def emit(i, g):
+        g.set_source(names[i], None)
+        with contextlib.redirect_stdout(io.StringIO()):
+            g.emit_python_code(paths[i] + ".py")
+    make_gens(X.n, X.includes, X.pre, X.cdefs, X.packed, X.late, how, emit)
+    mods = _import_chain(names, X.n, naming, [X.decls])
     f = {i: mods[i].ffi for i in mods}
     libs = {i: f[i].dlopen(None) for i in f}
 
@@ -273,52 +294,59 @@ def build_abi(du, topo):
         for i in names:
             sys.modules.pop(names[i], None)
             try:
-                os.unlink(os.path.join(d, names[i] + ".py"))
+                os.unlink(paths[i] + ".py")
             except OSError:
                 pass
-    return f, libs, decls, use_pos, cleanup
+        if pkg:
+            sys.modules.pop(pkg, None)
+            shutil.rmtree(os.path.join(d, pkg), ignore_errors=True)
+    return f, libs, X, cleanup
 
 
-def build_api(cases, topo):
-    """One chain of compiled modules holding many cases (names mangled by '_<case id>')."""
-    import cffi
-    import importlib
+def build_api(cases, topo, how="before", naming="flat", dry=False):
+    """One chain of compiled modules holding many cases (names mangled by '_<case id>').  The C files are written at
+    the moments `how` says, gcc runs afterwards (it has no influence on the FFI objects).  dry: generator only."""
     d = _scratch_on_path()
     u = _uniq()
-    n = 2 if topo == "L2" else 3
-    cd = {i: [] for i in range(1, n + 1)}
-    cs = {i: [] for i in range(1, n + 1)}
+    n, includes = TOPO[topo][0], TOPO[topo][1]
+    rng = range(1, n + 1)
+    acc = {key: {i: [] for i in rng} for key in ("pre", "cdefs", "packed", "csrc")}
+    late = []
     info = {}
-    includes = None
     for cid, du in cases:
-        s = "_%d" % cid
-        n_, cdefs, csrc, includes, use_pos, decls = chain_texts(du, topo, s, True)
-        for i in range(1, n + 1):
-            cd[i].append(cdefs[i])
-            cs[i].append(csrc[i])
-        info[cid] = (decls, use_pos)
-    gen = {}
-    names = {}
-    for i in range(1, n + 1):
-        g = cffi.FFI()
-        for j in includes.get(i, []):
-            g.include(gen[j])
-        g.cdef("".join(cd[i]))
-        names[i] = "c34c_%s_%d" % (u, i)
-        g.set_source(names[i], "".join(cs[i]))
-        gen[i] = g
-        cfile = os.path.join(d, names[i] + ".c")
+        X = chain_texts(du, topo, "_%d" % cid, True, how)
+        for i in rng:
+            acc["pre"][i].append(X.pre[i])
+            acc["cdefs"][i].append(X.cdefs[i])
+            acc["packed"][i].append(X.packed[i])
+            acc["csrc"][i].append(X.csrc[i])
+        late.append(X.late)
+        info[cid] = X
+    names, paths, pkg = _module_names("c34c", u, n, naming, d)
+    J = {key: {i: "".join(acc[key][i]) for i in rng} for key in acc}
+    def emit(i, g):
+        g.set_source(names[i], J["csrc"][i])
         with contextlib.redirect_stdout(io.StringIO()):
-            g.emit_c_code(cfile)
-        so = os.path.join(d, names[i] + build.EXT_SUFFIX)
+            g.emit_c_code(paths[i] + ".c")
+    make_gens(n, includes, J["pre"], J["cdefs"], J["packed"], "".join(late), how, emit)
+    if dry:
+        return None
+    for i in rng:
+        cfile = paths[i] + ".c"
+        so = paths[i] + build.EXT_SUFFIX
         p = subprocess.run(["gcc", "-O0", "-w", "-shared", "-fPIC", "-I" + build.INCLUDEPY, cfile, "-o", so],
                            stdout=subprocess.PIPE, stderr=subprocess.STDOUT, text=True)
         if p.returncode != 0:
-            raise InfraError("gcc failed on generated module %s:\n%s" % (cfile, p.stdout[-2500:]))
-    importlib.invalidate_caches()
-    mods = {}
-    for i in range(n, 0, -1):
-        mods[i] = importlib.import_module(names[i])
+            errs = [ln for ln in p.stdout.splitlines() if "error:" in ln]
+            e = BuildFailed("gcc rejects generated module %d of the chain: %s" % (i, " | ".join(errs[:3])[:500]))
+            # classification of the root cause: the C file of a module names a typedef that only a module
+            # INCLUDING it declares (use_t_* are the including cdefs' typedefs; the using module is never module 1)
+            e.cause = ("included_module_names_includer_typedef"
+                       if i < TOPO[topo][2] and any("use_t_" in ln for ln in errs) else "gcc_error")
+            # the case ids whose (mangled) names gcc complains about
+            e.cids = set(int(m) for ln in errs for m in re.findall(r"_(\d+)\b", ln.split("error:", 1)[1]))
+            raise e
+    mods = _import_chain(names, n, naming, [info[cid].decls for cid, _ in cases])
     f = {i: mods[i].ffi for i in mods}
     libs = {i: mods[i].lib for i in mods}
     return f, libs, info
@@ -331,17 +359,25 @@ def _err(e):
     return "%s: %s" % (type(e).__name__, str(e).split("\n")[0][:140])
 
 
-def check_case(mode, f, libs, decls, use_pos, order, s="", topo="L2"):
-    """Returns (nchecks, [(what, kind, text)])."""
+def check_case(mode, f, libs, X, order, s="", topo="L2", first="name", how="before"):
+    """Returns (nchecks, [(what, kind, text)]).  `kind` is the declaration kind as it was enumerated; sig_of() maps
+    it to the key of the signature."""
     bad = []
-    nchecks = 0
+    cnt = [0]
+    decls, use_pos = X.decls, X.use_pos
     n = len(f)
-    obs = observers(topo, n)
+    obs = observers(topo)
     qorder = [1] + obs if order == "base_first" else obs[::-1] + [1]
     api = mode == "api"
-    for kind, u, d in decls:
+    ident_ok = {}
+
+    def chk():
+        cnt[0] += 1
+
+    def blk_identity(kind, u, d):
         # ---- identity of every type through every FFI of the chain ------------------------
         for t in d["types"]:
+            ident_ok[t] = True
             for probe in (t, t + " *"):
                 got = {}
                 for i in qorder:
@@ -352,62 +388,110 @@ def check_case(mode, f, libs, decls, use_pos, order, s="", topo="L2"):
                 if isinstance(got[1], Exception):
                     raise InfraError("the declaring FFI itself cannot build %r: %s" % (probe, _err(got[1])))
                 for i in obs:
-                    nchecks += 1
+                    chk()
                     if isinstance(got[i], Exception):
+                        ident_ok[t] = False
                         bad.append(("not_visible", kind, "ffi%d.typeof(%r): %s" % (i, probe, _err(got[i]))))
                     elif got[i] is not got[1]:
+                        ident_ok[t] = False
                         bad.append(("identity", kind, "ffi%d.typeof(%r) is not ffi1.typeof(%r) [%s / %s]" % (
                             i, probe, probe, got[i].cname, got[1].cname)))
-        # ---- layouts are those of the included module -----------------------------------------
-        if d["layout"]:
-            size, align, offs = _LAYOUT[d["layout"]]
-            t = d["main"]
+
+    def blk_components(kind, u, d):
+        # ---- the parts of an included type are the included types (pointer targets, nested aggregates) ------
+        for T, path, exp in d["components"]:
             for i in qorder:
-                nchecks += 1
+                chk()
                 try:
-                    ct = f[i].typeof(t)
-                    flds = dict(ct.fields)
-                    got = (f[i].sizeof(t), f[i].alignof(t), {k: flds[k].offset for k in offs})
+                    ct = f[i].typeof(T)
+                    x = ct.item if path == "item" else dict(ct.fields)[path].type
+                    ref = f[1].typeof(exp)
                 except Exception as e:
-                    bad.append(("layout", kind, "ffi%d: layout of %r unavailable: %s" % (i, t, _err(e))))
+                    if i == 1:
+                        raise InfraError("the declaring FFI cannot look into %r: %s" % (T, _err(e)))
+                    bad.append(("not_visible", kind, "ffi%d: %s of %r: %s" % (i, path, T, _err(e))))
                     continue
-                if got != (size, align, offs):
-                    bad.append(("layout", kind, "ffi%d: %r has (size, align, offsets) %r, C says %r" % (
-                        i, t, got, (size, align, offs))))
+                if x is not ref:
+                    bad.append(("identity", kind, "ffi%d: %s of %r is not ffi1's %r [%s]" % (i, path, T, exp, x.cname)))
+
+    def blk_layout(kind, u, d):
+        # ---- layouts are those of the included module -----------------------------------------
+        if not d["layout"]:
+            return
+        size, align, offs = _LAYOUT[d["layout"]]
+        t = d["layout_type"] or d["main"]
+        for i in qorder:
+            chk()
+            try:
+                ct = f[i].typeof(t)
+                flds = dict(ct.fields)
+                got = (f[i].sizeof(t), f[i].alignof(t),
+                       {k: (flds[k].offset if k in flds else f[i].offsetof(t, k)) for k in offs})
+            except Exception as e:
+                bad.append(("layout", kind, "ffi%d: layout of %r unavailable: %s" % (i, t, _err(e))))
+                continue
+            if got != (size, align, offs):
+                bad.append(("layout", kind, "ffi%d: %r has (size, align, offsets) %r, C says %r" % (
+                    i, t, got, (size, align, offs))))
+
+    def blk_usage(kind, u, d):
         # ---- the usage in the including cdef refers to the shared object ------------------------
         tag = kind + s
-        if u != "nameonly":
-            for i in range(use_pos, n + 1):
-                nchecks += 1
-                try:
-                    if kind == "const":
-                        if u == "field":
-                            ln = f[i].typeof("struct use_s_" + tag).fields[0][1].type.length
-                        else:
-                            ln = f[i].typeof("use_t_" + tag).length
-                        if ln != 42:
-                            bad.append(("constant", kind, "ffi%d: array length from included constant is %r" % (i, ln)))
-                        continue
-                    ref = f[1].typeof(d["main"])
+        if u == "nameonly":
+            return
+        users = list(range(use_pos, n + 1))
+        if order != "base_first":
+            users.reverse()
+        for i in users:
+            chk()
+            try:
+                if kind in K.LEN_CONST:
                     if u == "field":
-                        ut = f[i].typeof("struct use_s_" + tag)
-                        x = ut.fields[0][1].type
-                        if ut is not f[use_pos].typeof("struct use_s_" + tag):
-                            bad.append(("identity", "usage_struct", "ffi%d: struct use_s is not ffi%d's" % (i, use_pos)))
-                    elif u == "tdtarget":
-                        x = f[i].typeof("use_t_" + tag)
+                        ln = f[i].typeof("struct use_s_" + tag).fields[0][1].type.length
                     else:
-                        if api and i == use_pos:
-                            x = f[i].typeof(getattr(libs[i], "use_f_" + tag)).args[0].item
-                        else:
-                            x = f[i].typeof("void(*)(%s *)" % d["main"]).args[0].item
-                    if x is not ref:
-                        bad.append(("identity", kind, "ffi%d: the type used as %s is not ffi1's %r [%s]" % (
-                            i, u, d["main"], x.cname)))
-                except InfraError:
-                    raise
-                except Exception as e:
-                    bad.append(("not_visible", kind, "ffi%d: usage %s of %r: %s" % (i, u, d["main"], _err(e))))
+                        ln = f[i].typeof("use_t_" + tag).length
+                    if ln != K.LEN_CONST[kind][1]:
+                        bad.append(("constant", kind, "ffi%d: array length from included constant is %r" % (i, ln)))
+                    continue
+                if first == "name":
+                    ref = f[1].typeof(d["main"])
+                if u == "field":
+                    if first != "name":
+                        # the includer's struct is what realizes the included type: size, allocation, fields
+                        f[i].sizeof("struct use_s_" + tag)
+                        f[i].new("struct use_s_" + tag + " *")
+                    ut = f[i].typeof("struct use_s_" + tag)
+                    x = ut.fields[0][1].type
+                    if ut is not f[use_pos].typeof("struct use_s_" + tag):
+                        bad.append(("identity", "usage_struct", "ffi%d: struct use_s is not ffi%d's" % (i, use_pos)))
+                elif u == "tdtarget":
+                    x = f[i].typeof("use_t_" + tag)
+                else:
+                    if api and (i == use_pos or first == "lib"):
+                        fn = getattr(libs[i], "use_f_" + tag)
+                        if first == "lib":
+                            fn(f[i].NULL)           # the argument conversion realizes the type
+                        x = f[i].typeof(fn).args[0].item
+                    else:
+                        x = f[i].typeof("void(*)(%s *)" % d["main"]).args[0].item
+                if first != "name":
+                    ref = f[1].typeof(d["main"])
+                if x is not ref:
+                    bad.append(("identity", kind, "ffi%d: the type used as %s is not ffi1's %r [%s]" % (
+                        i, u, d["main"], x.cname)))
+                elif api and u == "ptrarg":
+                    # behavioural consequence: a pointer made by the declaring FFI is accepted by the includer's function
+                    chk()
+                    try:
+                        getattr(libs[i], "use_f_" + tag)(f[1].cast(d["main"] + " *", 0))
+                    except Exception as e:
+                        bad.append(("behaviour", kind, "lib%d.use_f(ffi1.cast(%r, 0)): %s" % (i, d["main"] + " *", _err(e))))
+            except InfraError:
+                raise
+            except Exception as e:
+                bad.append(("not_visible", kind, "ffi%d: usage %s of %r: %s" % (i, u, d["main"], _err(e))))
+
+    def blk_consts(kind, u, d):
         # ---- integer constants and enumerators -----------------------------------------------------
         for cname, cval in sorted(d["consts"].items()):
             for i in qorder:
@@ -417,20 +501,24 @@ def check_case(mode, f, libs, decls, use_pos, order, s="", topo="L2"):
                         vals.append(("integer_const", f[i].integer_const(cname)))
                     vals.append(("lib", getattr(libs[i], cname)))
                 except Exception as e:
-                    nchecks += 1
+                    chk()
                     bad.append(("constant", kind, "ffi%d: constant %s not visible: %s" % (i, cname, _err(e))))
                     continue
-                for how, v in vals:
-                    nchecks += 1
+                for how_, v in vals:
+                    chk()
                     if v != cval or type(v) is not int:
-                        bad.append(("constant", kind, "ffi%d: %s via %s is %r, declared %r" % (i, cname, how, v, cval)))
+                        bad.append(("constant", kind, "ffi%d: %s via %s is %r, declared %r" % (i, cname, how_, v, cval)))
+
+    def blk_reach(kind, u, d):
         # ---- API: functions and globals of the included module through every including lib ------------
-        if api and kind == "func":
+        if not api:
+            return
+        if kind == "func":
             name = "fn_f" + s
             addr = {}
             for i in qorder:             # the realization order decides which lib caches the attribute first
                 if i != 1:
-                    nchecks += 1
+                    chk()
                 try:
                     r = getattr(libs[i], name)(5)
                     addr[i] = int(f[i].cast("intptr_t", f[i].addressof(libs[i], name)))
@@ -443,12 +531,12 @@ def check_case(mode, f, libs, decls, use_pos, order, s="", topo="L2"):
             for i in addr:
                 if addr[i] != addr.get(1):
                     bad.append(("reach", kind, "addressof(lib%d, %s) differs from lib1's" % (i, name)))
-        if api and kind == "glob":
+        elif kind == "glob":
             name = "gl_g" + s
             addr = {}
             for i in qorder:
                 if i != 1:
-                    nchecks += 1
+                    chk()
                 try:
                     v = getattr(libs[i], name)
                     addr[i] = int(f[i].cast("intptr_t", f[i].addressof(libs[i], name)))
@@ -467,31 +555,176 @@ def check_case(mode, f, libs, decls, use_pos, order, s="", topo="L2"):
                     setattr(libs[1], name, 77)
                     if back != 1000 + i or getattr(libs[i], name) != 77:
                         bad.append(("reach", kind, "a store through lib%d.%s is not the store lib1 sees" % (i, name)))
-    return nchecks, bad
+        elif kind == "extpy":
+            name, caller = "ep" + s, "ep_call" + s
+            ptr = {}
+            for i in qorder:
+                if i != 1:
+                    chk()
+                try:
+                    ptr[i] = getattr(libs[i], name)
+                except Exception as e:
+                    if i == 1:
+                        raise InfraError("the declaring lib has no %s: %s" % (name, _err(e)))
+                    bad.append(("reach", kind, "lib%d.%s: %s" % (i, name, _err(e))))
+            for i in ptr:
+                if ptr[i] != ptr[1]:
+                    bad.append(("reach", kind, "lib%d.%s is not lib1's function pointer" % (i, name)))
+            f[1].def_extern(name=name)(lambda x: x * 3)
+            for i in sorted(ptr):
+                if i != 1:
+                    chk()
+                try:
+                    got = (getattr(libs[i], caller)(5), ptr[i](5))
+                except Exception as e:
+                    if i == 1:
+                        raise InfraError("the declaring lib cannot call %s: %s" % (caller, _err(e)))
+                    bad.append(("reach", kind, "lib%d.%s: %s" % (i, caller, _err(e))))
+                    continue
+                if got != (16, 15):
+                    bad.append(("reach", kind, "lib%d: (%s(5), %s(5)) is %r, expected (16, 15)" % (i, caller, name, got)))
+        elif kind in K.REACH_KINDS:
+            R = K.reach_ops(kind, s)
+            seen = {}
+            for i in qorder:
+                if i != 1:
+                    chk()
+                try:
+                    v = R["read"](f[i], libs[i], f[1])
+                    a = int(f[i].cast("intptr_t", f[i].addressof(libs[i], R["sym"]))) if R["sym"] else None
+                    p = R["ptr"](f[i], libs[i]) if "ptr" in R else None
+                    ty = R["typed"](f[i], libs[i]) if "typed" in R else None
+                except Exception as e:
+                    if i == 1:
+                        raise InfraError("the declaring lib cannot reach its own %s: %s" % (kind, _err(e)))
+                    bad.append(("reach", kind, "lib%d (%s): %s" % (i, kind, _err(e))))
+                    continue
+                if v != R["expect"]:
+                    bad.append(("reach", kind, "lib%d (%s): observed %r, expected %r" % (i, kind, v, R["expect"])))
+                if ty is not None and ty[0] is not f[1].typeof(ty[1]):
+                    bad.append(("identity", kind, "lib%d (%s): the value's type is not ffi1's %r [%s]" % (
+                        i, kind, ty[1], ty[0].cname)))
+                seen[i] = (a, p)
+            for i in sorted(seen):
+                if seen[i] != seen.get(1):
+                    bad.append(("reach", kind, "lib%d (%s): address differs from what lib1 gives" % (i, kind)))
+                elif i != 1 and "store" in R:
+                    chk()
+                    orig = R["raw"](f[1], libs[1])
+                    R["store"](f[i], libs[i], 1000 + i)
+                    back = R["raw"](f[1], libs[1])
+                    R["store"](f[1], libs[1], orig)
+                    if back != 1000 + i or R["raw"](f[i], libs[i]) != orig:
+                        bad.append(("reach", kind, "a store through lib%d (%s) is not the store lib1 sees" % (i, kind)))
+
+    def blk_behaviour(kind, u, d):
+        # ---- behavioural consequences of identity (only where identity held; enums re-created in generated
+        # modules are the recorded K34-enum-copied and are not reported a second time here).  Reference for every
+        # operation is the same operation done through the declaring FFI alone: where that one fails, nothing is asked.
+        for t in d["types"]:
+            if not ident_ok.get(t) or t in d["opaque"]:
+                continue
+            try:
+                ct = f[1].typeof(t)
+                size1 = f[1].sizeof(t)
+            except Exception:
+                continue
+            for i in obs:
+                chk()
+                try:
+                    if f[i].sizeof(t) != size1:
+                        bad.append(("behaviour", kind, "ffi%d.sizeof(%r) differs from ffi1's" % (i, t)))
+                    if ct.kind not in ("struct", "union"):
+                        continue
+                    fld = ct.fields[0][0]
+                    p1 = f[1].new(t + " *")
+                    try:
+                        r1 = f[1].new(t + " *")
+                        r1[0] = p1[0]
+                        f[1].addressof(p1, fld)
+                        off1 = f[1].offsetof(t, fld)
+                    except Exception:
+                        continue                     # not an operation this type supports at all
+                    q = f[i].new(t + " *")
+                    if f[i].typeof(q) is not f[1].typeof(p1):
+                        bad.append(("behaviour", kind, "ffi%d.new(%r) has another type than ffi1.new()" % (i, t + " *")))
+                    q[0] = p1[0]                     # cdata of the other FFI is accepted iff the ctypes are identical
+                    p1[0] = q[0]
+                    f[i].addressof(p1, fld)
+                    if f[i].offsetof(t, fld) != off1:
+                        bad.append(("behaviour", kind, "ffi%d.offsetof(%r, %r) differs from ffi1's" % (i, t, fld)))
+                except Exception as e:
+                    bad.append(("behaviour", kind, "ffi%d, cross-FFI use of %r: %s" % (i, t, _err(e))))
+
+    def blk_late():
+        # ---- declarations cdef()ed into ffi1 after it was included: fully visible or not at all ---------
+        tn, sn, kn = "lt_t" + s, "struct lt_s" + s, "LT_K" + s
+        try:
+            ref = f[1].typeof(tn)
+            refs = f[1].typeof(sn)
+        except Exception as e:
+            raise InfraError("the declaring FFI does not know its own late declaration: %s" % _err(e))
+        for i in obs:
+            chk()
+            try:
+                got = f[i].typeof(tn)
+            except Exception:
+                got = None
+            if got is not None:
+                if got is not ref:
+                    bad.append(("identity", "late", "ffi%d.typeof(%r) exists but is not ffi1's" % (i, tn)))
+                elif f[i].typeof(sn) is not refs:
+                    bad.append(("identity", "late", "ffi%d knows %r but its %r is not ffi1's" % (i, tn, sn)))
+            getters = [lambda: getattr(libs[i], kn)]
+            if mode != "inline":
+                getters.append(lambda: f[i].integer_const(kn))
+            for getter in getters:
+                try:
+                    v = getter()
+                except Exception:
+                    continue
+                if v != 5:
+                    bad.append(("constant", "late", "ffi%d: late constant %s is %r, declared 5" % (i, kn, v)))
+
+    blocks = {"name": [blk_identity, blk_components, blk_layout, blk_usage, blk_consts, blk_reach, blk_behaviour],
+              "usage": [blk_usage, blk_identity, blk_components, blk_layout, blk_consts, blk_reach, blk_behaviour],
+              "lib": [blk_reach, blk_usage, blk_consts, blk_identity, blk_components, blk_layout, blk_behaviour]}[first]
+    for kind, u, d in decls:
+        for blk in blocks:
+            blk(kind, u, d)
+    if how == "late_cdef":
+        blk_late()
+    return cnt[0], bad
 
 
 # ---------------------------------------------------------------------------------------
-# workers
+# workers.  A case is (mode, du, topo, order, hist, first, how, naming).
+
+def norm_case(c):
+    c = list(c)
+    c += ["name", "before", "flat"][len(c) - 5:]
+    mode, du, topo, order, hist, first, how, naming = c
+    return (mode, tuple((k, u) for k, u in du), topo, order, hist, first, how, naming)
+
 
 def run_cheap(case):
-    mode, du, topo, order, hist = case
+    mode, du, topo, order, hist, first, how, naming = case
     import warnings
     warnings.simplefilter("ignore")
     cleanup = None
     try:
         if mode == "inline":
-            f, libs, decls, use_pos, cleanup = build_inline(du, topo, hist)
+            f, libs, X, cleanup = build_inline(du, topo, hist, how)
         else:
-            f, libs, decls, use_pos, cleanup = build_abi(du, topo)
+            f, libs, X, cleanup = build_abi(du, topo, how, naming)
     except InfraError:
         raise
     except Exception as e:
         # every chain of the space is a valid use of include() that the unchanged tree builds; if the including FFI
         # or module cannot be built, the included declarations are not visible through it
-        import traceback
         return 0, [("chain_build_failed", "chain", "%s | %s" % (_err(e), traceback.format_exc()[-700:]))]
     try:
-        return check_case(mode, f, libs, decls, use_pos, order, "", topo)
+        return check_case(mode, f, libs, X, order, "", topo, first, how)
     finally:
         if cleanup:
             cleanup()
@@ -505,88 +738,291 @@ def work_cheap(block):
     return out
 
 
-def work_api(item):
-    topo, cases = item              # cases: [(cid, du, order)]
+def _in_child(fn):
+    """Run fn() in a forked copy of this process (the compiled modules are imported but nothing of them is realized
+    yet: every realization order starts from the same pristine state).  -> ('ok', result) | ('crash', description)"""
+    r, w = os.pipe()
+    sys.stdout.flush()
+    sys.stderr.flush()
+    pid = os.fork()
+    if pid == 0:
+        try:
+            os.close(r)
+            try:
+                data = pickle.dumps(("ok", fn()))
+            except InfraError as e:
+                data = pickle.dumps(("infra", str(e)))
+            except BaseException:
+                data = pickle.dumps(("infra", traceback.format_exc()))
+            with os.fdopen(w, "wb") as fh:
+                fh.write(data)
+        finally:
+            os._exit(0)
+    os.close(w)
+    with os.fdopen(r, "rb") as fh:
+        data = fh.read()
+    _, status = os.waitpid(pid, 0)
+    if not data:
+        if os.WIFSIGNALED(status):
+            return ("crash", "killed by signal %d" % os.WTERMSIG(status))
+        return ("crash", "exit status %r" % (status,))
+    res = pickle.loads(data)
+    if res[0] == "infra":
+        raise InfraError(res[1])
+    return res
+
+
+def work_api(item, fork=True):
+    """item: ((topo, how, naming), [(cid, du, [(order, first), ...]), ...]).  Every du is compiled once (mangled by its
+    cid); every (order, first) variant runs in its own forked process."""
+    (topo, how, naming), cases = item
     import warnings
     warnings.simplefilter("ignore")
+
+    def full(du, order, first):
+        return ("api", du, topo, order, "fresh", first, how, naming)
+    key = (topo, how, naming)
     try:
-        f, libs, info = build_api([(cid, du) for cid, du, _ in cases], topo)
+        f, libs, info = build_api([(cid, du) for cid, du, _ in cases], topo, how, naming)
+    except InfraError:
+        raise
     except Exception as e:
-        # generator exception, gcc rejecting the generated C, or import failure: the batch of valid chains cannot be built
-        import traceback
-        cid, du, order = cases[0]
-        return [(("api", du, topo, order, "fresh"), 0,
-                 [("chain_build_failed", "batch", "%d cases | %s | %s" % (len(cases), _err(e),
-                                                                           traceback.format_exc()[-700:]))])]
+        # generator exception, gcc rejecting the generated C, or import failure: the batch of valid chains cannot be
+        # built.  Isolate the chains that cannot be built (so that each one is reported alone and is replayable): those
+        # gcc names, or those whose own generation fails; otherwise halve the batch.
+        tb = traceback.format_exc()[-700:]
+        if len(cases) > 1:
+            culprits = []
+            if getattr(e, "cids", None):
+                culprits = [c for c in cases if c[0] in e.cids]
+            elif not isinstance(e, BuildFailed):
+                for c in cases:
+                    try:
+                        build_api([(c[0], c[1])], topo, how, naming, dry=True)
+                    except InfraError:
+                        raise
+                    except Exception:
+                        culprits.append(c)
+            if culprits and len(culprits) < len(cases):
+                out = []
+                for c in culprits:
+                    out.extend(work_api((key, [c]), fork))
+                return out + work_api((key, [c for c in cases if c not in culprits]), fork)
+            h = len(cases) // 2
+            return work_api((key, cases[:h]), fork) + work_api((key, cases[h:]), fork)
+        cid, du, variants = cases[0]
+        what = "chain_build_failed:" + getattr(e, "cause", type(e).__name__)
+        return [(full(du, o, fi), 0, [(what, "+".join(k for k, _ in du), "%s | %s" % (_err(e), tb))])
+                for o, fi in variants]
+    variants = []
+    for cid, du, vs in cases:
+        for v in vs:
+            if v not in variants:
+                variants.append(v)
     out = []
-    for cid, du, order in cases:
-        decls, use_pos = info[cid]
-        n, bad = check_case("api", f, libs, decls, use_pos, order, "_%d" % cid, topo)
-        out.append((("api", du, topo, order, "fresh"), n, bad))
+    for order, first in variants:
+        sel = [(cid, du) for cid, du, vs in cases if (order, first) in vs]
+
+        def run_sel(sel=sel):
+            res = []
+            for cid, du in sel:
+                n, bad = check_case("api", f, libs, info[cid], order, "_%d" % cid, topo, first, how)
+                res.append((full(du, order, first), n, bad))
+            return res
+        if not fork:
+            out.extend(run_sel())
+            continue
+        st, res = _in_child(run_sel)
+        if st == "ok":
+            out.extend(res)
+            continue
+        # a child died: find the case(s) by running each one in its own child
+        for one in sel:
+            st1, res1 = _in_child(lambda one=one: run_sel([one]))
+            if st1 == "ok":
+                out.extend(res1)
+            else:
+                out.append((full(one[1], order, first), 0, [("crash", "chain", res1)]))
     return out
 
 
-# ---------------------------------------------------------------------------------------
+def work_anon(item):
+    from . import _c34_anon as AN
+    _, case, tag = item
+    return [("anon", case, AN.run_case(case, tag))]
 
-def du_space(kmax):
+
+# ---------------------------------------------------------------------------------------
+# the space
+
+def du_space(kmax, kinds=None):
     """All (kind, usage) assignments for all subsets of <= kmax kinds."""
+    kinds = KINDS if kinds is None else kinds
     for k in range(1, kmax + 1):
-        for D in itertools.combinations(KINDS, k):
+        for D in itertools.combinations(kinds, k):
             for us in itertools.product(USAGES, repeat=k):
                 if all(applicable(kd, u) for kd, u in zip(D, us)):
                     yield tuple(zip(D, us))
 
 
+def du_ok(du, mode):
+    return mode == "api" or not any(k in K.API_ONLY for k, _ in du)
+
+
+def first_applies(du, first, mode):
+    """first == 'usage': some declaration is used by a dependent type of the includer; 'lib' (API): some declaration
+    is first reached through a function / global of a lib object."""
+    if first == "name":
+        return True
+    if first == "usage":
+        return any(u != "nameonly" and k not in K.LEN_CONST for k, u in du)
+    return mode == "api" and any(u == "ptrarg" or k in ("funcs", "gstruct", "kstruct") for k, u in du)
+
+
+def enumerate_space(quick):
+    """-> ordered dict case -> family."""
+    space = {}
+
+    def add(fam, mode, du, topo, order, hist="fresh", first="name", how="before", naming="flat"):
+        if not du_ok(du, mode) or not first_applies(du, first, mode):
+            return
+        space.setdefault((mode, du, topo, order, hist, first, how, naming), fam)
+
+    kmax = 2 if quick else 3
+    base = list(du_space(kmax))
+    singles_old = [du for du in base if len(du) == 1]
+    pairs_old = [du for du in base if len(du) == 2]
+    singles_new = list(du_space(1, K.SHAPE_KINDS + K.REACH_KINDS))
+    singles = singles_old + singles_new
+    pairs_new = [a + b for a in singles_new for b in singles_old]       # (new kind, original kind)
+    # ---- base: the original product
+    for du in base:
+        for topo in TOPOS:
+            for order in ORDERS:
+                add("base", "abi", du, topo, order)
+                for hist in ("fresh", "reused"):
+                    if hist == "reused" and quick and len(du) > 1:
+                        continue             # quick tier: the already-used included FFI only with single kinds
+                    add("base", "inline", du, topo, order, hist)
+                # API (compilation is the expensive part): quick = every single kind on every chain shape + every pair
+                # of kinds on the longest chain; thorough = singles and pairs on every shape + triples on the diamond
+                if quick:
+                    if len(du) == 2 and topo != "L3_use_last":
+                        continue
+                elif len(du) == 3 and topo != "L3_diamond":
+                    continue
+                add("base", "api", du, topo, order)
+    # ---- shapes: further declaration shapes, alone and (thorough) next to every original kind
+    for du in singles_new + ([] if quick else pairs_new):
+        for topo in TOPOS:
+            for order in ORDERS:
+                add("shapes", "abi", du, topo, order)
+                add("shapes", "inline", du, topo, order)
+                if len(du) == 1:
+                    add("shapes", "inline", du, topo, order, "reused")
+                if len(du) == 1 or topo == "L3_use_last":
+                    add("shapes", "api", du, topo, order)
+    # ---- first: what touches the included type first
+    for du in singles + ([] if quick else pairs_old):
+        for topo in (TOPOS if len(du) == 1 else ["L3_use_last", "L3_diamond"]):
+            for order in ORDERS:
+                for first in ("usage", "lib"):
+                    for mode in ("abi", "inline", "api"):
+                        if len(du) == 2 and mode == "api" and topo != "L3_use_last":
+                            continue
+                        add("first", mode, du, topo, order, first=first)
+    # ---- how: the way include() is called
+    for du in singles + ([] if quick else pairs_old):
+        for how in HOWS[1:]:
+            for topo in (HOW_TOPOS if len(du) == 1 else ["L2"]):
+                for order in ORDERS:
+                    add("how", "abi", du, topo, order, how=how)
+                    if how != "emit_late":       # in-line there is no emission
+                        add("how", "inline", du, topo, order, how=how)
+                    if topo == "L2" or (not quick and len(du) == 1):
+                        add("how", "api", du, topo, order, how=how)
+    # ---- naming: dotted module names, included module imported and used first
+    for du in singles:
+        for naming in NAMINGS[1:]:
+            for topo in HOW_TOPOS:
+                for order in ORDERS:
+                    add("naming", "abi", du, topo, order, naming=naming)
+                    if topo == "L2" and (naming == "package+baseused" or not quick):
+                        add("naming", "api", du, topo, order, naming=naming)
+    # ---- long: chains of 4 and 5 FFIs
+    for du in singles + ([] if quick else pairs_old):
+        for topo in LONG_TOPOS:
+            for order in ORDERS:
+                for first in (("name",) if quick else ("name", "usage", "lib")):
+                    add("long", "abi", du, topo, order, first=first)
+                    add("long", "inline", du, topo, order, first=first)
+                    if len(du) == 1:
+                        add("long", "api", du, topo, order, first=first)
+    return space, kmax, len(base)
+
+
+def api_items(space, per_weight):
+    """Group the API cases by chain (topology, how, naming), compile every du once per chain."""
+    groups = {}
+    for case in space:
+        mode, du, topo, order, hist, first, how, naming = case
+        if mode != "api":
+            continue
+        key = (topo, how, naming)
+        if how == "empty":
+            # an including module without any declaration of its own exists only if no case of the batch has a usage
+            key = (topo, how, naming, all(u == "nameonly" for _, u in du))
+        groups.setdefault(key, {}).setdefault(du, []).append((order, first))
+    items = []
+    for key in groups:
+        cur, w = [], 0
+        n = TOPO[key[0]][0]
+        for du, vs in groups[key].items():
+            cur.append((len(cur), du, vs))
+            w += len(du) * n
+            if w >= per_weight:
+                items.append((w, (key[:3], cur)))
+                cur, w = [], 0
+        if cur:
+            items.append((w, (key[:3], cur)))
+    items.sort(key=lambda x: -x[0])              # the longest batches first
+    return [it for _, it in items]
+
+
 def sig_of(case, what, kind):
-    mode, du, topo, order, hist = case
-    return {"mode": mode, "what": what, "kind": kind, "history": hist}
+    mode, du, topo, order, hist, first, how, naming = case
+    sig = {"mode": mode, "what": what, "kind": K.SIG_KIND.get(kind, kind), "history": hist}
+    if what.startswith("chain_build_failed:"):
+        sig["what"], sig["cause"] = what.split(":")
+    if kind in K.SIG_KIND:
+        sig["shape"] = kind
+    if first != "name":
+        sig["first"] = first
+    if how != "before":
+        sig["how"] = how
+    if naming != "flat":
+        sig["naming"] = naming
+    if topo in LONG_TOPOS:
+        sig["topology"] = topo
+    return sig
 
 
 def run(ctx):
     global _LAYOUT
     _LAYOUT = gcc_layouts()
-    # numbered anonymous structs ('$1', ...) declared by several FFIs of an include chain
     from . import _c34_anon as AN
-    for k, case in enumerate(AN.cases()):
-        ctx.count("anon_numbered_cases")
-        for what, owner, user, info in AN.run_case(case, "r%d" % k):
-            ctx.violation({"kind": "anon_numbered", "what": what, "mode": "abi" if case[2] == "ool" else "inline"},
-                          {"anon_numbered": True, "case": [list(case[0]), list(case[1]), case[2]],
-                           "owner": owner, "seen_through": user, "info": info})
-    kmax = 2 if ctx.quick else 3
-    dus = list(du_space(kmax))
+    space, kmax, nbase = enumerate_space(ctx.quick)
     n_na = sum(1 for k in KINDS for u in USAGES if not applicable(k, u))
     ctx.count("kind_x_usage.not_applicable", n_na)
-    cheap = []
-    for du in dus:
-        for topo in TOPOS:
-            for order in ORDERS:
-                cheap.append(("abi", du, topo, order, "fresh"))
-                for hist in ("fresh", "reused"):
-                    if hist == "reused" and ctx.quick and len(du) > 1:
-                        continue             # quick tier: the already-used included FFI only with single kinds
-                    cheap.append(("inline", du, topo, order, hist))
-    # API (compilation is the expensive part): quick = every single kind on every chain shape + every pair of kinds on
-    # the longest chain; thorough = singles and pairs on every shape + triples on the diamond
-    api_cases = {topo: [] for topo in TOPOS}
-    cid = 0
-    for du in dus:
-        for topo in TOPOS:
-            if ctx.quick:
-                if len(du) == 2 and topo != "L3_use_last":
-                    continue
-            elif len(du) == 3 and topo != "L3_diamond":
-                continue
-            for order in ORDERS:
-                api_cases[topo].append((cid, du, order))
-                cid += 1
-    api_items = []
-    per = 90 if ctx.quick else 300
-    for topo in TOPOS:
-        for chunk in pool.chunks(api_cases[topo], per):
-            api_items.append([(topo, chunk)])
-    ctx.log("%d (kinds x usages) assignments; %d in-line/ABI chains; %d API cases in %d module chains" % (
-        len(dus), len(cheap), cid, len(api_items)))
+    cheap = [c for c in space if c[0] != "api"]
+    aitems = api_items(space, 150 if ctx.quick else 400)
+    n_api = sum(1 for c in space if c[0] == "api")
+    n_api_du = sum(len(it[1]) for it in aitems)
+    # numbered anonymous structs ('$1', ...) declared by several FFIs of an include chain
+    anon_items = [("anon", case, "r%d" % k) for k, case in enumerate(AN.cases())]
+    ctx.log("%d original (kinds x usages) assignments; %d in-line/ABI chains; %d API cases on %d compiled declaration "
+            "sets in %d module chains; %d numbered-anonymous chains" % (
+                nbase, len(cheap), n_api, n_api_du, len(aitems), len(anon_items)))
 
     evaluated = checks = 0
     nontrivial = set()
@@ -595,18 +1031,23 @@ def run(ctx):
         nonlocal evaluated, checks
         evaluated += 1
         checks += n
-        mode, du, topo, order, hist = case
+        mode, du, topo, order, hist, first, how, naming = case
+        ctx.count("family." + space.get(case, "base"))
         ctx.count("mode." + mode)
         ctx.count("topology." + topo)
         ctx.count("order." + order)
+        ctx.count("first." + first)
+        ctx.count("how." + how)
+        ctx.count("naming." + naming)
         if mode == "inline":
             ctx.count("inline_history." + hist)
         for k, u in du:
             ctx.count("kind.%s.%s" % (k, u))
-        if len(du) > 1 or topo != "L2" or du[0][1] != "nameonly":
+        if len(du) > 1 or topo != "L2" or du[0][1] != "nameonly" or (first, how, naming) != ("name", "before", "flat"):
             nontrivial.add(case)
         ctx.sample({"mode": mode, "declared_and_used": [list(x) for x in du], "topology": topo, "first_realized_by": order,
-                    "history": hist, "cdef_of_included": chain_texts(du, topo, "", mode == "api")[1][1]})
+                    "history": hist, "first_touched": first, "include_called": how, "naming": naming,
+                    "cdef_of_included": chain_texts(du, topo, "", mode == "api", how).cdefs[1]})
         seen = set()
         for what, kind, text in bad:
             key = (what, kind)
@@ -614,11 +1055,11 @@ def run(ctx):
                 continue                     # one report per (what, kind) per case
             seen.add(key)
             ctx.violation(sig_of(case, what, kind),
-                          {"case": [mode, [list(x) for x in du], topo, order, hist],
+                          {"case": [mode, [list(x) for x in du], topo, order, hist, first, how, naming],
                            "messages": [t for w, k, t in bad if (w, k) == key][:6]})
 
     # the API batches take longest: start them first
-    items = api_items + [[b] for b in pool.chunks(cheap, 40)]
+    items = [[("api", it)] for it in aitems] + [[it] for it in anon_items] + [[b] for b in pool.chunks(cheap, 40)]
     for item, r in pool.pmap(_dispatch, items):
         if isinstance(r, pool.WorkerError):
             raise InfraError("worker failed: %s" % r.tb)
@@ -626,31 +1067,62 @@ def run(ctx):
             ctx.violation({"what": "crash"}, {"item": repr(item)[:2000], "how": r.describe()})
             continue
         for case, n, bad in r:
+            if case == "anon":
+                case, bad = n, bad
+                ctx.count("anon_numbered_cases")
+                ctx.count("anon_numbered_cases." + case[2])
+                for what, owner, user, info in bad:
+                    ctx.violation({"kind": "anon_numbered", "what": what,
+                                   "mode": {"ool": "abi", "inline": "inline", "api": "api"}[case[2]]},
+                                  {"anon_numbered": True, "case": [list(case[0]), list(case[1]), case[2]],
+                                   "owner": owner, "seen_through": user, "info": info})
+                continue
             absorb(case, n, bad)
+    fam = {}
+    for c, fm in space.items():
+        fam[fm] = fam.get(fm, 0) + 1
     cov = {
         "evaluations": evaluated,
         "distinct_nontrivial": len(nontrivial),
         "checks": checks,
-        "rule": "every subset of <= %d of the 9 declaration kinds x every applicable usage assignment (%d assignments) x 5 "
+        "rule": "base: every subset of <= %d of the 9 declaration kinds x every applicable usage assignment (%d assignments) x 5 "
                 "chain shapes (A<-B; A<-B<-C used in B; A<-B<-C used in C; C includes B and A where B includes A; C "
                 "includes an unrelated B first and then A) x 2 realization orders, "
-                "run in-line with a fresh and with an already-used included FFI%s, and as out-of-line ABI modules; API: %s, "
-                "batched by name mangling into %d chains of compiled modules.  "
-                "non-trivial = more than one kind, or a chain of 3, or a usage other than by-name (distinct cases)" % (
-                    kmax, len(dus), " (the latter for single kinds only)" if ctx.quick else "",
+                "run in-line with a fresh and with an already-used included FFI%s, and as out-of-line ABI modules; API: %s.  "
+                "shapes: 18 further type / constant shapes and 12 further API function / global / constant shapes as "
+                "single kinds%s on the same chains, orders and modes.  first: every single kind%s whose declaration is "
+                "touched first by the includer's dependent type or (API) by a lib function.  how: every single kind%s "
+                "x include() after a first cdef / twice / into FFIs without own declarations / followed by a later "
+                "cdef of the included FFI on A<-B, A<-B<-C, diamond.  naming: every single kind in ABI modules inside "
+                "a package and / or with the included module imported and used before the includer (API: A<-B).  "
+                "long: every single kind%s on a chain of 4, a 4-node diamond and a 5-FFI chain whose first include "
+                "misses at depth 2.  Cases per family: %s.  API cases are batched by name mangling into %d chains of compiled "
+                "modules, every (order, first) variant in its own forked process.  "
+                "non-trivial = more than one kind, or a chain of 3 or more, or a usage other than by-name, or a "
+                "non-default first / how / naming (distinct cases)" % (
+                    kmax, nbase, " (the latter for single kinds only)" if ctx.quick else "",
                     "single kinds on all shapes and pairs on A<-B<-C used in C" if ctx.quick else
-                    "singles and pairs on all shapes, triples on the diamond", len(api_items)),
+                    "singles and pairs on all shapes, triples on the diamond",
+                    "" if ctx.quick else " and paired with every original kind",
+                    "" if ctx.quick else " and every pair of original kinds",
+                    "" if ctx.quick else " and every pair of original kinds (A<-B)",
+                    "" if ctx.quick else " and every pair of original kinds, each also usage-first / lib-first",
+                    ", ".join("%s %d" % kv for kv in sorted(fam.items())), len(aitems)),
         "exhaustive": True,
-        "bound": {"max_kinds_per_included_ffi": kmax, "max_chain": 3, "api_cases": cid},
+        "bound": {"max_kinds_per_included_ffi": kmax, "max_chain": 5, "api_cases": n_api,
+                  "api_compiled_declaration_sets": n_api_du},
     }
     return ctx.finish(cov, ["gcc (cref) computes the expected layouts; dlopen(None) is used to reach integer constants "
                             "through a lib object in the in-line and ABI modes",
-                            "API modules: emit_c_code() output compiled with gcc -O0"])
+                            "API modules: emit_c_code() output compiled with gcc -O0; the realization orders of one "
+                            "compiled chain run in forked copies of the process that imported it"])
 
 
 def _dispatch(x):
-    if isinstance(x, tuple) and len(x) == 2 and x[0] in TOPOS:
-        return work_api(x)
+    if isinstance(x, tuple) and x[0] == "api":
+        return work_api(x[1])
+    if isinstance(x, tuple) and x[0] == "anon":
+        return work_anon(x)
     return work_cheap(x)
 
 
@@ -664,18 +1136,25 @@ def replay(detail):
         return 1 if bad else 0
     global _LAYOUT
     _LAYOUT = gcc_layouts()
-    mode, du, topo, order, hist = detail["case"]
-    du = tuple((k, u) for k, u in du)
-    n, cdefs, csrc, includes, use_pos, decls = chain_texts(du, topo, "", mode == "api")
-    for i in sorted(cdefs):
-        print("--- ffi%d includes %s" % (i, includes.get(i, [])))
-        print(cdefs[i])
-    print("mode=%s first realized by=%s history=%s" % (mode, order, hist))
+    case = norm_case(detail["case"])
+    mode, du, topo, order, hist, first, how, naming = case
+    X = chain_texts(du, topo, "", mode == "api", how)
+    for i in sorted(X.cdefs):
+        print("--- ffi%d includes %s%s" % (i, X.includes.get(i, []), " (each twice)" if how == "twice" else ""))
+        if X.pre[i]:
+            print("[before the include() calls]\n" + X.pre[i])
+        print(X.cdefs[i])
+        if X.packed[i]:
+            print("[packed=True]\n" + X.packed[i])
+    if X.late:
+        print("[cdef into ffi1 after the others included it]\n" + X.late)
+    print("mode=%s first realized by=%s history=%s first touched=%s include=%s naming=%s" % (
+        mode, order, hist, first, how, naming))
     if mode == "api":
-        out = work_api((topo, [(0, du, order)]))
+        out = work_api(((topo, how, naming), [(0, du, [(order, first)])]), fork=False)
         nchk, bad = out[0][1], out[0][2]
     else:
-        nchk, bad = run_cheap((mode, du, topo, order, hist))
+        nchk, bad = run_cheap(case)
     for what, kind, text in bad:
         print("MISMATCH", what, kind, text)
     if not bad:
